@@ -120,7 +120,7 @@ theorem ci_exact (cfg : Config) (hp : PlainPrintCI cfg) (hci : cfg.ci = true) (e
 /-- the settings of `ci_default_exact`: only the case-insensitive option (and possibly capturing groups) -/
 def cfgCI (cap : Bool) : Config := { cap := cap, ci := true }
 
-theorem plainPrintCI_cfgCI (cap : Bool) : PlainPrintCI (cfgCI cap) := ⟨rfl, rfl, rfl, rfl, rfl, rfl⟩
+theorem plainPrintCI_cfgCI (cap : Bool) : PlainPrintCI (cfgCI cap) := ⟨rfl, rfl, rfl, rfl, rfl⟩
 
 /-- **C04 for the model, all inputs** with only the case-insensitive option: the compiled pattern matches exactly
 the strings that equal a stored non-empty test case up to simple case folding, position by position -/
